@@ -137,6 +137,52 @@ func genC14(seed uint64, tier string, outdir string) *Report {
 		st.finish(r, true, "")
 	}
 
+	// (b3) the plan names an EXISTING validator with its OWN key (keeps the sequencer, drops the
+	// others, swaps the executors): a good plan, also at the cap; afterwards the key must still be
+	// indexed (adding another operator with it is refused) and the dropped ones can come back.
+	for variant := 0; variant < 4; variant++ {
+		st.caseID++
+		g := genesisOf(3, 2, VRec{1, 1, 1}, VRec{2, 2, 1})
+		switch variant {
+		case 1:
+			g = genesisOf(2, 2, VRec{1, 1, 5}, VRec{2, 2, 1}) // at the cap, power 5 -> 1
+		case 3:
+			g = genesisOf(3, 2, VRec{2, 2, 1}, VRec{3, 1, 1}) // the kept one is last in store order
+		}
+		keep := g.Vals[len(g.Vals)-1]
+		if variant < 3 {
+			keep = g.Vals[0]
+		}
+		r := ve.Start(st.caseID, g, 3, 3)
+		r.Do(TVOp{Kind: "begin", H: 1})
+		r.Do(TVOp{Kind: "register", Pid: 1, PH: 2, Op: keep.Op, Key: keep.Key, Execs: ve.userStrs(5)})
+		r.Do(TVOp{Kind: "end", H: 1})
+		r.Do(TVOp{Kind: "begin", H: 2})
+		if variant == 2 { // removed earlier in the plan's own block: the plan brings it back
+			r.Do(TVOp{Kind: "rm", Op: keep.Op})
+		}
+		r.Do(TVOp{Kind: "end", H: 2})
+		r.Do(TVOp{Kind: "begin", H: 3})
+		other := uint64(1)
+		for other == keep.Op || other == g.Vals[0].Op || other == g.Vals[1].Op {
+			other++
+		}
+		if s := r.Do(TVOp{Kind: "add", Op: other, Key: keep.Key}); s.Verdict == "OK" {
+			rep.Violate(Violation{Case: st.caseID, Step: len(r.Ops), What: "after a plan that kept an existing validator, another operator could be added with the same consensus key", Sig: "C14:plan-failed", Ops: r.History(len(r.Ops))})
+		}
+		for _, v := range g.Vals {
+			if v.Op != keep.Op {
+				r.Do(TVOp{Kind: "add", Op: v.Op, Key: v.Key}) // a dropped validator may be added again (room permitting)
+			}
+		}
+		r.Do(TVOp{Kind: "end", H: 3})
+		kind := ""
+		if variant == 0 {
+			kind = "plan = an existing validator with its own key"
+		}
+		st.finish(r, true, kind)
+	}
+
 	// (b2) block h executed twice by one process: first on a DISCARDED cache branch, then for
 	// real.  The plan registry is node memory, not store state; the real run must still apply
 	// the plan (fresh operator, fresh key, room below the cap: the good situation).
@@ -214,6 +260,10 @@ func genC14(seed uint64, tier string, outdir string) *Report {
 					for t := 0; t < 8 && usedKey[key]; t++ {
 						key = uint64(1 + rg.Intn(5))
 					}
+				}
+				if len(cur.Vals) > 0 && rg.Chance(15) { // an existing validator with its own key: keep the sequencer
+					v := cur.Vals[rg.Intn(len(cur.Vals))]
+					op, key = v.Op, v.Key
 				}
 				var execs []string
 				for n := rg.Intn(4); n > 0; n-- {
